@@ -389,6 +389,111 @@ func c12EncodeCase(c *rt.Ctx, sub int, r *rand.Rand) {
 	c.NonTrivial("enc", e.name, t1.String(), string(snap1))
 }
 
+// c12OutSizes are output sizes around the sizes at which an encoder may switch how it hands its
+// result over (initial pooled buffer, powers of two, 64 KiB, 1 MiB).
+var c12OutSizes = []int{1, 100, 1023, 1024, 1025, 4095, 4096, 4097, 16384, 65535, 65536, 65537, 70000, 131072, 300000, 1048576, 1100000}
+
+// c12EncodeSized: the output-owned monitor for results of a chosen size through every Marshal
+// entry point: the result is held while later calls of every size recycle the pooled contexts,
+// then filled (contents and spare capacity) before the same later calls are made again.
+func c12EncodeSized(c *rt.Ctx, sub int, r *rand.Rand, size int) {
+	mk := func(n, shape int) any {
+		switch shape {
+		case 0:
+			return strings.Repeat("s", n)
+		case 1:
+			var l []string
+			for left := n; left > 0; left -= 103 {
+				l = append(l, strings.Repeat("e", minInt(left, 100)))
+			}
+			return l
+		case 2:
+			return map[string]any{"k": strings.Repeat("m", n), "n": []int{1, 2}}
+		default:
+			return struct {
+				A string
+				B []int
+			}{strings.Repeat("f", n), []int{n}}
+		}
+	}
+	entries := []struct {
+		name string
+		f    func(x any) ([]byte, error)
+	}{
+		{"Marshal", func(x any) ([]byte, error) { return gojson.Marshal(x) }},
+		{"MarshalIndent", func(x any) ([]byte, error) { return gojson.MarshalIndent(x, "", " ") }},
+		{"MarshalNoEscape", func(x any) ([]byte, error) { return gojson.MarshalNoEscape(x) }},
+		{"MarshalWithOption", func(x any) ([]byte, error) { return gojson.MarshalWithOption(x, gojson.DisableHTMLEscape()) }},
+		{"MarshalIndentWithOption", func(x any) ([]byte, error) {
+			return gojson.MarshalIndentWithOption(x, ">", "\t", gojson.DisableNormalizeUTF8())
+		}},
+		{"MarshalContext", func(x any) ([]byte, error) { return gojson.MarshalContext(context.Background(), x) }},
+	}
+	later := func() [][]byte {
+		var outs [][]byte
+		for _, n := range []int{5, size / 2, size, size + size/3 + 7} {
+			for i := range entries {
+				o, _ := entries[i].f(mk(n, (i+n)%4))
+				outs = append(outs, append([]byte{}, o...))
+			}
+		}
+		return outs
+	}
+	for ei := range entries {
+		e := &entries[ei]
+		shape := (ei + sub) % 4
+		var out1 []byte
+		var err error
+		if pan, _, _ := rt.Guard(func() { out1, err = e.f(mk(size, shape)) }); pan || err != nil {
+			c.Obs("encode_base_failed", 1)
+			continue
+		}
+		c.Eval(1)
+		snap1 := append([]byte{}, out1...)
+		input := map[string]any{"output_size": len(out1), "shape": shape, "entry": e.name}
+		ctx := fmt.Sprintf("size-class:%s", sizeClass(len(out1)))
+		want := later()
+		if !bytes.Equal(out1, snap1) {
+			c.Violate(rt.Violation{Monitor: "output-owned", Entry: e.name, Kind: "returned-slice-changed-by-later-calls", Ctx: ctx, Detail: fmt.Sprintf("a %d-byte result changed at byte %d while later calls ran", len(snap1), firstDiff(snap1, out1)), Input: input, Sub: sub})
+			continue
+		}
+		full := out1[:cap(out1)]
+		for i := range full {
+			full[i] = 0x5A
+		}
+		got := later()
+		c.Eval(int64(2 * len(want)))
+		bad := -1
+		for i := range want {
+			if !bytes.Equal(want[i], got[i]) {
+				bad = i
+				break
+			}
+		}
+		if bad >= 0 {
+			c.Violate(rt.Violation{Monitor: "output-owned", Entry: e.name, Kind: "later-result-affected-by-scribble", Ctx: ctx, Detail: fmt.Sprintf("after filling a %d-byte result (cap %d), later call %d returned %s", len(snap1), cap(out1), bad, rt.Q(got[bad][:minInt(len(got[bad]), 200)])), Input: input, Sub: sub})
+			continue
+		}
+		c.Obs("encode_sized_cases_clean", 1)
+		c.SetAdd("encode_output_size_classes", sizeClass(len(out1)))
+		c.NonTrivial("enc-sized", e.name, fmt.Sprint(size, shape))
+	}
+}
+
+func sizeClass(n int) string {
+	switch {
+	case n <= 1024:
+		return "<=1Ki"
+	case n <= 4096:
+		return "<=4Ki"
+	case n <= 65536:
+		return "<=64Ki"
+	case n <= 1<<20:
+		return "<=1Mi"
+	}
+	return ">1Mi"
+}
+
 func c12StreamCase(c *rt.Ctx, sub int, r *rand.Rand) {
 	n := 2 + r.Intn(5)
 	var stream bytes.Buffer
@@ -553,11 +658,15 @@ func init() {
 		Run: func(c *rt.Ctx) {
 			r := c.RNG(0)
 			entries := []string{"Unmarshal", "UnmarshalWithOption", "Decoder(bytes.Reader)", "Decoder(bytes.Buffer)", "UnmarshalNoEscape", "UnmarshalContext", "Decoder.DecodeContext", "Decoder.DecodeWithOption"}
-			for k := 0; k < 28; k++ {
+			for k := 0; k < 29; k++ {
 				if !c.Cur(k, fmt.Sprintf("shapes=core\naliasing case %d", k)) {
 					continue
 				}
 				switch {
+				case k == 28:
+					// one output size per batch, cycling through the table
+					c12EncodeSized(c, k, r, c12OutSizes[c.Idx%len(c12OutSizes)])
+					continue
 				case k >= 20:
 					c12PrepopCase(c, k, r)
 					continue
